@@ -1,7 +1,7 @@
 (* C11 -- any text can be passed as a literal argument through the documented escapes.
    GENERATED from Properties/src/C11.props by tools/mkprops.py; property theorems only. *)
 From SP Require Import Model.Syntax Model.Scanner.
-From SP Require Import Proofs.SyntaxP Proofs.ArgP.
+From SP Require Import Proofs.SyntaxP Proofs.ArgP Proofs.NumP Proofs.RangeSynP Proofs.OpSynP Proofs.RawArgP.
 
 (* for EVERY string -- any mixture of backslashes, unbalanced braces, colons,
    pipes, newlines, tabs and multi-byte characters -- the decoder applied to the
@@ -194,3 +194,41 @@ Example C11_ex :
   /\ process_arg [92; 92; 92; 125; 92; 58; 233; 92; 110; 128512; 92; 124; 92; 123; 92; 116]%N = [92; 125; 58; 233; 10; 128512; 124; 123; 9]%N
   /\ x_parse_ok_append [123; 97; 112; 112; 101; 110; 100; 58; 92; 58; 233; 125]%N = Some [58; 233]%N.
 Proof. vm_compute. repeat split. Qed.
+
+(* not only the canonical escaping: ANY raw text made of escaped pairs (\X for any X) and
+   characters other than : | { } is read by rule simple_arg in full and nothing more *)
+Theorem C11_any_escaped_spelling_is_read :
+  forall (a rest : str), regex_units a = true -> stops rest ->
+  run r_simple_arg false (a ++ rest) = Some (a, [Node (Some R_simple_arg) a []], rest).
+Proof. exact simple_arg_reads_units. Qed.
+Check C11_any_escaped_spelling_is_read :
+  forall (a rest : str), regex_units a = true -> stops rest ->
+  run r_simple_arg false (a ++ rest) = Some (a, [Node (Some R_simple_arg) a []], rest).
+Print Assumptions C11_any_escaped_spelling_is_read.
+
+(* ... and append / prepend / surround / quote / join written with such a text carry exactly
+   its decoding process_arg a (so \a\:\b is a:b), at top level ... *)
+Theorem C11_redundant_escapes_top_level :
+  forall (o : op) (txt rest : str), spells_raw o txt -> op_stops rest ->
+  exists k, run r_operation false (txt ++ rest) = Some (txt, [Node (Some R_operation) txt [k]], rest)
+            /\ parse_operation k = Ok o.
+Proof. exact operation_reads_raw. Qed.
+Check C11_redundant_escapes_top_level :
+  forall (o : op) (txt rest : str), spells_raw o txt -> op_stops rest ->
+  exists k, run r_operation false (txt ++ rest) = Some (txt, [Node (Some R_operation) txt [k]], rest)
+            /\ parse_operation k = Ok o.
+Print Assumptions C11_redundant_escapes_top_level.
+
+(* ... and inside map:{...} *)
+Theorem C11_redundant_escapes_in_map :
+  forall (o : op) (txt rest : str), spells_raw o txt -> op_stops rest ->
+  exists k, run r_map_inner_operation false (txt ++ rest) = Some (txt, [Node (Some R_map_inner_operation) txt [k]], rest)
+            /\ parse_map_inner_operation k = Ok o.
+Proof. exact inner_reads_raw. Qed.
+Check C11_redundant_escapes_in_map :
+  forall (o : op) (txt rest : str), spells_raw o txt -> op_stops rest ->
+  exists k, run r_map_inner_operation false (txt ++ rest) = Some (txt, [Node (Some R_map_inner_operation) txt [k]], rest)
+            /\ parse_map_inner_operation k = Ok o.
+Print Assumptions C11_redundant_escapes_in_map.
+
+Check raw_example.
